@@ -183,7 +183,10 @@ pub fn case(ch: &mut Choices, ctx: &CaseCtx) -> CaseOut {
         while xs.data_depth() > 0 {
             let _ = xs.pop_data();
         }
-        nsources += 1;
+        // a source rejected while it was compiled is forgotten entirely: it does not keep its buffer number
+        if !pb.text.contains("nosuch_earlier") {
+            nsources += 1;
+        }
         all_sources.push(pb.text);
     }
     // ---- the failing source ------------------------------------------------------------
